@@ -269,6 +269,16 @@ func checkC04(c *Check, p *Program) {
 		if iff == nil {
 			continue
 		}
+		// a comparison made after the acknowledgement is on its way (to word a log line) decides nothing
+		afterAck := false
+		for _, ak := range acks {
+			if instrDominates(ak, iff) {
+				afterAck = true
+			}
+		}
+		if afterAck {
+			continue
+		}
 		for si, s := range b.Succs {
 			cm, _ := cmpOf(iff.Cond, si == 0)
 			if !isExp(cm) || b.Succs[0] == b.Succs[1] {
